@@ -10,6 +10,7 @@ package hpack
 //     padding / EOS rules against the harness's bit-level decoder.
 
 import (
+	"math/big"
 	"bytes"
 	"encoding/json"
 	"errors"
@@ -649,6 +650,67 @@ func TestVFC18Bytes(t *testing.T) {
 				}
 			}
 			res.Actions["varint_cases"]++
+		}
+	}
+	// long integers: k continuation octets (k = 7..11) with seeded payloads.  A decoder may refuse an integer it cannot hold, but it must never
+	// hand out a value other than the one RFC 7541 5.1 defines (arbitrary precision reference), whole or in two pieces
+	for n := uint(1); n <= 8; n++ {
+		for k := 7; k <= 11; k++ {
+			for _, last := range []byte{0x00, 0x01, 0x02, 0x06, 0x40, 0x7f} {
+				for variant := 0; variant < 3; variant++ {
+					enc := []byte{byte(1<<n - 1)}
+					for j := 0; j < k-1; j++ {
+						pay := byte(0)
+						switch variant {
+						case 1:
+							pay = byte(rng.Intn(128))
+						case 2:
+							pay = 0x7f
+						}
+						enc = append(enc, 0x80|pay)
+					}
+					enc = append(enc, last)
+					ref := new(big.Int).SetUint64(uint64(1<<n - 1))
+					for j, b := range enc[1:] {
+						ref.Add(ref, new(big.Int).Lsh(big.NewInt(int64(b&127)), uint(7*j)))
+					}
+					dv, rest, err := readVarInt(byte(n), append(append([]byte{}, enc...), 0x55))
+					if err == nil && (!ref.IsUint64() || ref.Uint64() != dv || len(rest) != 1) {
+						res.violate(map[string]any{"check": "C18", "kind": "varint_decode", "class": "long"},
+							fmt.Sprintf("readVarInt(%d, %x) = %d (rest %d octets), RFC 7541 5.1 gives %s", n, enc, dv, len(rest), ref.String()), nil)
+					}
+					// as the index of an indexed field / the name index of a literal / a table size update, through a Decoder: no table is that
+					// large and no size update that high is admissible - the block must be refused, whole or cut anywhere
+					if n == 7 || n == 4 || n == 5 {
+						first := map[uint]byte{7: 0x80, 4: 0x00, 5: 0x20}[n]
+						blk := append([]byte{first | enc[0]}, enc[1:]...)
+						if n == 4 {
+							blk = append(blk, 0x01, 'a')
+						}
+						if ref.Cmp(big.NewInt(4096)) > 0 {
+							for cut := 0; cut <= len(blk); cut += 1 + len(blk)/3 {
+								d := NewDecoder(4096, nil)
+								var derr error
+								if cut > 0 && cut < len(blk) {
+									if _, derr = d.Write(blk[:cut]); derr == nil {
+										_, derr = d.Write(blk[cut:])
+									}
+								} else {
+									_, derr = d.Write(blk)
+								}
+								if derr == nil {
+									derr = d.Close()
+								}
+								if derr == nil {
+									res.violate(map[string]any{"check": "C18", "kind": "decoder_accepts_impossible_integer", "class": "long"},
+										fmt.Sprintf("Decoder accepted block %x (cut at %d) whose integer is %s", blk, cut, ref.String()), nil)
+								}
+							}
+						}
+					}
+					res.Actions["long_varint_cases"]++
+				}
+			}
 		}
 	}
 	// Huffman: encode/decode agreement with the bit-level reference on random strings over all byte values
